@@ -109,6 +109,13 @@ func (g *GRU) Apply(inputs []tensor.Tensor) ([]tensor.Tensor, error) {
 	// we do not support bidirectional GRU yet.
 	shapeWithoutBidir := prevH.Shape().Clone()[1:]
 
+	// The initial state may be a model weight or a tensor owned by the caller, so
+	// it is cloned before being reshaped.
+	prevH, ok := prevH.Clone().(tensor.Tensor)
+	if !ok {
+		return nil, ops.ErrTypeAssert("tensor.Tensor", prevH)
+	}
+
 	err = prevH.Reshape(shapeWithoutBidir...)
 	if err != nil {
 		return nil, err
